@@ -28,6 +28,9 @@ def main(seed, ncases, driver, out):
                 chosen = rnd.sample(exps, min(len(exps), rnd.randint(2, 6)))
                 if k >= 2: chosen.append(tuple(1 for _ in range(k))); chosen.append(tuple(2 if i == 0 else 1 for i in range(k)))
                 entries[(a, b)] = {e: Fraction(rnd.randint(-5, 5), rnd.choice([1, 2, 3])) for e in set(chosen)}
+        for i in range(k):     # every symbol occurs (a symbol the matrix does not depend on is rejected as "not in hamiltonian", by design)
+            if not any(q != 0 and e[i] > 0 for v in entries.values() for e, q in v.items()):
+                e1 = tuple(1 if j == i else 0 for j in range(k)); entries[(0, 0)][e1] = Fraction(rnd.randint(1, 5), rnd.choice([1, 2, 3]))
         M = sympy.Matrix(dim, dim, lambda a, b: sum((sympy.Rational(q.numerator, q.denominator) * sympy.Mul(*[s ** p for s, p in zip(syms, e)])
                                                        for e, q in entries[(a, b)].items()), sympy.S.Zero))
         desc = {"case": c, "symbols": names, "dim": dim, "entries": {f"{a},{b}": {",".join(map(str, e)): str(q) for e, q in v.items()} for (a, b), v in entries.items()}}
